@@ -576,6 +576,56 @@ func c14World(t *testing.T, r *simcore.Run) any {
 		if r.Violation() == nil {
 			codecs()
 		}
+		if r.Violation() == nil {
+			// several key-exchange handlers pack their messages at the same time (one goroutine per
+			// connection in the servers), preempted between the statements of the record packer:
+			// each message still decodes to what went into it
+			r.YieldsOn, r.YieldNum, r.YieldDen = true, 1, 1
+			npack, finished := 2+tp.Intn(3, "packers"), 0
+			for g := 0; g < npack; g++ {
+				g := g
+				w.goSafe(fmt.Sprintf("packer%d", g), func() {
+					defer func() { finished++ }()
+					for it := 0; it < 3 && r.Violation() == nil; it++ {
+						var m ntske.ExchangeMsg
+						m.AddRecord(ntske.NextProto{NextProto: ntske.NTPv4})
+						m.AddRecord(ntske.Algorithm{Algo: []uint16{ntske.AES_SIV_CMAC_256}})
+						srv := fmt.Sprintf("10.%d.%d.%d", g+1, it+1, idx%250)
+						port := uint16(1000*g + 10*it + 7)
+						m.AddRecord(ntske.Server{Addr: []byte(srv)})
+						m.AddRecord(ntske.Port{Port: port})
+						var cks [][]byte
+						for i := 0; i < 3; i++ {
+							c := bytes.Repeat([]byte{byte(16*g + 4*it + i + 1)}, 40+8*g)
+							cks = append(cks, c)
+							m.AddRecord(ntske.Cookie{Cookie: c})
+						}
+						m.AddRecord(ntske.End{})
+						b, err := m.Pack()
+						if err != nil {
+							fail("ke/pack", "%v", err)
+							return
+						}
+						d, err := c14Decode(b.Bytes())
+						ok := err == nil && d.Server == srv && d.Port == port && len(d.Cookie) == len(cks)
+						for i := 0; ok && i < len(cks); i++ {
+							ok = bytes.Equal(d.Cookie[i], cks[i])
+						}
+						if !ok {
+							fail("ke/concurrent-pack", "message packed by handler %d while %d others pack theirs decodes to server %q port %d, %d cookies (%v): not what went into it", g, npack-1, d.Server, d.Port, len(d.Cookie), err)
+							return
+						}
+					}
+				})
+			}
+			for k := 0; k < 200 && finished < npack; k++ {
+				if r.Sleep(fmt.Sprintf("packwait:%d", k), w.cli.Node, time.Millisecond).Killed {
+					return
+				}
+			}
+			r.YieldsOn = false
+			r.Probe("concurrent-packers")
+		}
 		if monErr != "" && r.Violation() == nil {
 			fail("wire/monitor", "%s", monErr)
 		}
